@@ -148,11 +148,6 @@ func init() {
 		p.mapOrderNondet = v
 		return nil
 	}
-	I[vzPkg+".OnAtomic"] = func(p *Path, a []Value, _ *ssa.CallCommon) Value {
-		p.atomicHook = a[0]
-		p.atomicBudget = p.concreteInt(a[1], "OnAtomic budget")
-		return nil
-	}
 	boolN := func(f func(ts ...*Term) *Term) intrinsicFn {
 		return func(p *Path, a []Value, _ *ssa.CallCommon) Value {
 			ts := make([]*Term, len(a))
